@@ -10,6 +10,7 @@ import (
 	"sort"
 	"strings"
 	"sync"
+	"sync/atomic"
 	"time"
 
 	"github.com/enbility/ship-go/api"
@@ -56,7 +57,7 @@ type ether struct {
 	// Delay draws the propagation delay of one announcement to one listener.
 	Delay func() time.Duration
 	// Down: the multicast medium is unusable (announcements are lost)
-	Down bool
+	Down atomic.Bool
 }
 
 func newEther(x *Ctx) *ether {
@@ -80,7 +81,7 @@ func (e *ether) resync() {
 	for _, p := range provs {
 		p.mu.Lock()
 		ann := p.announced
-		it := p.item(false)
+		it := p.itemLocked(false)
 		p.mu.Unlock()
 		if !ann {
 			continue
@@ -106,12 +107,18 @@ func (e *ether) others(p *etherProvider) []*etherProvider {
 }
 
 func (p *etherProvider) item(remove bool) etherItem {
+	p.mu.Lock()
+	defer p.mu.Unlock()
+	return p.itemLocked(remove)
+}
+
+func (p *etherProvider) itemLocked(remove bool) etherItem {
 	return etherItem{txt: append([]string(nil), p.txt...), name: p.name, host: p.node + ".local", addrs: []net.IP{p.ip}, port: p.port, remove: remove}
 }
 
 // send schedules the delivery of it to q.
 func (e *ether) send(q *etherProvider, it etherItem) {
-	if e.Down {
+	if e.Down.Load() {
 		e.x.S.Fault("mdns-lost")
 		return
 	}
@@ -165,7 +172,7 @@ func (p *etherProvider) Start(autoReconnect bool, cb api.MdnsResolveCB) bool {
 	for _, q := range p.eth.others(p) {
 		q.mu.Lock()
 		ann := q.announced
-		it := q.item(false)
+		it := q.itemLocked(false)
 		q.mu.Unlock()
 		if ann {
 			p.eth.send(p, it)
@@ -184,7 +191,7 @@ func (p *etherProvider) Announce(serviceName string, port int, txt []string) err
 	p.mu.Lock()
 	p.announced = true
 	p.name, p.port, p.txt = serviceName, port, append([]string(nil), txt...)
-	it := p.item(false)
+	it := p.itemLocked(false)
 	p.mu.Unlock()
 	p.eth.x.Ev("mdns-announce", p.node, strings.Join(txt, ";"), port)
 	for _, q := range p.eth.others(p) {
@@ -197,7 +204,7 @@ func (p *etherProvider) Unannounce() {
 	p.mu.Lock()
 	was := p.announced
 	p.announced = false
-	it := p.item(true)
+	it := p.itemLocked(true)
 	p.mu.Unlock()
 	if !was {
 		return
@@ -321,10 +328,11 @@ type hubRig struct {
 	nodes map[string]*hubNode
 	order []string
 
-	pmu     sync.Mutex
-	prodSeq int
-	prod    map[*api.ConnectionStateDetail]int // production order of pairing details
-	connIDs map[any]int
+	pmu       sync.Mutex
+	prodSeq   int
+	prod      map[*api.ConnectionStateDetail]int // production order of pairing details
+	connIDs   map[any]int
+	provBySKI map[string]*etherProvider
 }
 
 func (r *hubRig) connID(c any) int {
@@ -378,15 +386,16 @@ func nodeOfLabel(l string) string {
 }
 
 func newHubRig(x *Ctx) *hubRig {
-	r := &hubRig{x: x, eth: newEther(x), nodes: map[string]*hubNode{}, prod: map[*api.ConnectionStateDetail]int{}, connIDs: map[any]int{}}
+	r := &hubRig{x: x, eth: newEther(x), nodes: map[string]*hubNode{}, prod: map[*api.ConnectionStateDetail]int{}, connIDs: map[any]int{}, provBySKI: map[string]*etherProvider{}}
 	hook := r.probe
 	simrt.ProbeHook.Store(&hook)
 	x.Net.OnDial = func(from, to, addr string) { x.Ev("dial", from, to, 0) }
 	mdns.VerifZeroconfFactory = func(m *mdns.MdnsManager, _ []net.Interface) api.MdnsProviderInterface {
-		for _, n := range r.nodes {
-			if n.ski == m.VerifSKI() && n.prov != nil {
-				return n.prov
-			}
+		r.pmu.Lock()
+		p := r.provBySKI[m.VerifSKI()]
+		r.pmu.Unlock()
+		if p != nil {
+			return p
 		}
 		return &nullProvider{}
 	}
@@ -423,6 +432,9 @@ func (n *hubNode) create() {
 		return
 	}
 	n.prov = n.rig.eth.provider(n.name, n.ip)
+	n.rig.pmu.Lock()
+	n.rig.provBySKI[n.ski] = n.prov
+	n.rig.pmu.Unlock()
 	n.mdns = mdns.NewMDNS(n.ski, "brand-"+n.name, "model", "type", "serial-"+n.name, []api.DeviceCategoryType{1}, "SHIPID-"+n.name, "svc-"+n.name, n.port, nil, mdns.MdnsProviderSelectionGoZeroConfOnly)
 	local := api.NewServiceDetails(n.ski)
 	local.SetShipID("SHIPID-" + n.name)
